@@ -11,10 +11,10 @@ import (
 )
 
 // NumSteps is the number of distinct chain elements.
-const NumSteps = 12
+const NumSteps = 16
 
 // Names describes the chain elements (for evidence samples).
-var Names = [NumSteps]string{"c.F", "c.T.M", "c.(*T).PM", "c.G[int]", "c.G[string]", "c.Inl", "c.Closure", "v2.F", "v2.Long.method", "v2.G[int,string]", "ted.F", "ted.S.M"}
+var Names = [NumSteps]string{"c.F", "c.T.M", "c.(*T).PM", "c.G[int]", "c.G[string]", "c.Inl", "c.Closure", "v2.F", "v2.Long.method", "v2.G[int,string]", "ted.F", "ted.S.M", "c.FG>G[float64]", "c.GF[int]>F", "c.FBox>(*Box[string]).M>F", "c.GG[int]>GF[[]int]>F"}
 
 // Run executes the chain from position i and finally calls leaf.
 func Run(chain []int, i int, leaf func()) {
@@ -46,7 +46,15 @@ func Run(chain []int, i int, leaf func()) {
 		v2.G(1, "s", next)
 	case 10:
 		ted.F(next)
-	default:
+	case 11:
 		ted.S{}.M(next)
+	case 12:
+		c.FG(next)
+	case 13:
+		c.GF(1, next)
+	case 14:
+		c.FBox(next)
+	default:
+		c.GG(1, next)
 	}
 }
